@@ -51,7 +51,7 @@ META = dict(
     assumptions=["SQLite", "single session", "probe family as listed"],
     bounds=dict(
         quick="worlds U1(su, all+orphan) U2 U3 U5 U8; histories <= 2 ops after the empty and the populated committed root; all probes",
-        thorough="plus U7 U4 U1(all) U5(passive_updates=False) U3(su) U2(su), three roots; histories <= 2 ops (<= 3 for the two U1 worlds after the populated root); all probes",
+        thorough="plus U7 U4 U1(all) U5(passive_updates=False) U3(su) U2(su), three roots; histories <= 2 ops (<= 3 for U1 save-update after the populated root); all probes",
     ),
 )
 SHARD_TIMEOUT = dict(quick=600, thorough=3000)
@@ -73,7 +73,7 @@ def shards(tier, seed):
         for ri in range(len(c30.ROOTS[wk[0]])):
             if tier == "quick" and ri >= 2:
                 continue
-            deep = tier != "quick" and wk in (("U1", c30.SU), ("U1", c30.ORPH)) and ri == 1
+            deep = tier != "quick" and wk == ("U1", c30.SU) and ri == 1
             out.append(dict(world=wk, root=ri, depth=3 if deep else 2))
     return out
 
